@@ -124,7 +124,7 @@ Section Inst.
 
   Lemma I_operand : forall t, Doc.is_operand t = true -> nud_of E t = NAtom.
   Proof.
-    intros t H; destruct t as [n c|n|i|i|i|i|i|i|i| | |i|i];
+    intros t H; destruct t as [n c|n|i|i|i|i|i|i|i| | |i|i]; try destruct c;
       cbv beta iota delta [Doc.is_operand nud_of] in *; try reflexivity; try discriminate.
     - apply negb_true_iff in H. now rewrite (unreserved_lookup _ H).
     - apply negb_true_iff in H. now rewrite (unreserved_lookup _ H).
